@@ -90,6 +90,14 @@ pub fn subcommand(args: &[String]) -> Option<i32> {
             }
             Some(0)
         }
+        "rustc-polkadot" => {
+            let t0 = std::time::Instant::now();
+            match crate::rustc_tier::polkadot_case().and_then(|c| crate::rustc_tier::run_batch("polkadot", &[c], false)) {
+                Ok(_) => println!("polkadot module compiles, {:?}", t0.elapsed()),
+                Err(f) => println!("failed: {} [{}]", f.msg.chars().take(3000).collect::<String>(), f.signature),
+            }
+            Some(0)
+        }
         "rustc-smoke" => {
             let n: usize = args.get(1).and_then(|s| s.parse().ok()).unwrap_or(20);
             let cf = args.get(2).map(|s| s == "cf").unwrap_or(true);
